@@ -64,10 +64,18 @@ def generate(seed, tier):
     if sim:
         cfg["Jdes"] = min(cfg["Jdes"], 8)
     nops = rw.randrange(1, 5 if sim else 9)
-    ops = [["compute"]]
+    # an interfering analysis of the same record with another window shape / order (same lengths): process-wide state
+    # that is keyed too coarsely (e.g. a window cache ignoring psll) is history dependence of the estimator
+    other = dict(cfg, psll=rw.choice([p_ for p_ in (45, 70, 110, 160, 200) if p_ != cfg["psll"]]),
+                 order=rw.choice([-1, 0, 1, 2]), band=None, force_target_nf=False)
+    if rw.random() < 0.3:
+        other["win"] = rw.choice(["hann", "kaiser", "bartlett"])
+    ops = [["other"], ["compute"]] if rw.random() < 0.35 else [["compute"]]
     for _ in range(nops):
         r = rw.random()
-        if r < 0.3:
+        if r < 0.08:
+            ops.append(["other"])
+        elif r < 0.3:
             ops.append(["compute"])
         elif r < 0.6:
             a, b = sorted([rw.randrange(0, 64), rw.randrange(0, 64)])
@@ -78,7 +86,8 @@ def generate(seed, tier):
                 ops.append(["single", ["grid", rw.randrange(64)], ["planL", rw.randrange(64)]])
             else:
                 ops.append(["single", ["free", round(rw.uniform(0, 0.5), 5)], rw.choice([["L", rw.randrange(1, Lmax + 1)], ["fres", rw.randrange(1, Lmax + 1)]])])
-    return {"world": W.gen_world(rf, world, 6), "data": data, "cfg": cfg, "ops": ops, "clock": CK.gen_clock(R.stream(seed, "clock"), p_none=0.5)}
+    return {"world": W.gen_world(rf, world, 6), "data": data, "cfg": cfg, "other": other, "ops": ops,
+            "clock": CK.gen_clock(R.stream(seed, "clock"), p_none=0.5)}
 
 
 # --------------------------------------------------------------------------
@@ -172,7 +181,13 @@ def execute(sc, out):
             out.sim_steps += 1
             try:
                 with clock.installed():
-                    if kind == "compute":
+                    if kind == "other":
+                        try:
+                            SC.build_analyzer(data, sc["other"]).compute()
+                            out.count("other_analyzer_compute")
+                        except Exception:
+                            out.count("other_analyzer_failed")
+                    elif kind == "compute":
                         r = an.compute()
                         ncomp += 1
                         _check_against_reference(r, x, y, cfg, out, "compute", backend)
